@@ -643,6 +643,72 @@ def cell_table_cmp(pdb, node, atom_name, ty, env=None):
 
 
 # -------------------------------------------------------------------------------------------------
+# bound prover for panic-site obligations over unconstrained (or bit-constrained) words
+
+def ub_node(bv, x, depth=0):
+    """an upper bound of an unsigned scalar node, from known-zero bits and the shape of the arithmetic (None = unknown)"""
+    if depth > 40:
+        return None
+    k = x[0]
+    ty = ty_of(x)
+    if k == 'c' and isinstance(x[1], int):
+        return x[1] if x[1] >= 0 else None
+    if ty not in INT_BITS or is_signed(ty):
+        return None
+    tmax = (1 << INT_BITS[ty]) - 1 if ty != 'char' else 0x10FFFF
+    if k == 'ite':
+        a, b = ub_node(bv, x[2], depth + 1), ub_node(bv, x[3], depth + 1)
+        return None if a is None or b is None else max(a, b)
+    if k == 'bin' and x[1] in ('Add', 'Mul'):
+        a, b = ub_node(bv, x[2], depth + 1), ub_node(bv, x[3], depth + 1)
+        if a is not None and b is not None:
+            return min(tmax, a + b if x[1] == 'Add' else a * b)
+    if k == 'bin' and x[1] == 'Sub':
+        a = ub_node(bv, x[2], depth + 1)
+        if a is not None:
+            return a
+    if k == 'cast':
+        a = ub_node(bv, x[1], depth + 1)
+        if a is not None:
+            return min(a, tmax)
+    if k == 'call' and x[1] in ('count_ones', 'count_zeros', 'leading_zeros', 'trailing_zeros'):
+        return INT_BITS.get(ty_of(x[2][0]), 64)
+    if k == 'idx':
+        try:
+            return max(bv.pdb.table(x[1]))
+        except Exception:
+            return None
+    try:
+        v = bv.bv(x)
+    except Uncertified:
+        return None
+    return sum(1 << i for i, b in enumerate(v) if b != 0)
+
+
+def prove_obligation(pdb, cond, known_zero=None):
+    """True when the panic-site condition provably holds for every value of its atoms (bit/interval reasoning)."""
+    if cond[0] == 'c':
+        return bool(cond[1])
+    bv = BitVec(pdb, known_zero=known_zero or {})
+    if cond[0] == 'bin' and cond[1] in ('Lt', 'Le') and cond[3][0] == 'c':
+        u = ub_node(bv, cond[2])
+        return u is not None and (u < cond[3][1] if cond[1] == 'Lt' else u <= cond[3][1])
+    if cond[0] == 'bin' and cond[1] in ('Gt', 'Ge') and cond[2][0] == 'c':
+        u = ub_node(bv, cond[3])
+        return u is not None and (u < cond[2][1] if cond[1] == 'Gt' else u <= cond[2][1])
+    if cond[0] == 'un' and cond[1] == 'Not' and cond[2][0] == 'bin' and cond[2][1] in ('AddOvf', 'MulOvf'):
+        a, b = ub_node(bv, cond[2][2]), ub_node(bv, cond[2][3])
+        ty = ty_of(cond[2][2])
+        if a is None or b is None or ty not in INT_BITS or is_signed(ty):
+            return False
+        tmax = (1 << INT_BITS[ty]) - 1
+        return (a + b if cond[2][1] == 'AddOvf' else a * b) <= tmax
+    if cond[0] == 'bin' and cond[1] == 'BitAnd' and cond[4] == 'bool':
+        return prove_obligation(pdb, cond[2], known_zero) and prove_obligation(pdb, cond[3], known_zero)
+    return False
+
+
+# -------------------------------------------------------------------------------------------------
 # bit-vector abstraction
 #
 # A bit is: 0 | 1 | ('b', atom_name, i) | ('or', frozenset(bits)) | ('and', frozenset(bits)) | ('not', bit)
@@ -800,6 +866,16 @@ class BitVec:
                         r = b_top(a + b) or 0
                         return [r if op == 'Ne' else r]
                 return [r if op == 'Ne' else b_not(r)]
+            if op in ('Rem', 'Div', 'Mul') and x[3][0] == 'c' and x[3][1] > 0 and (x[3][1] & (x[3][1] - 1)) == 0 and not is_signed(ty):
+                a = self.bv(x[2])
+                w = len(a)
+                k_ = x[3][1].bit_length() - 1
+                if op == 'Rem':
+                    return a[:k_] + [0] * (w - k_)
+                if op == 'Div':
+                    return a[k_:] + [0] * k_
+                # Mul by 2^k: exact only if no bit is shifted out that could be set; a wrapped result is still the shl
+                return [0] * k_ + a[:w - k_]
             if op in ('Gt', 'Lt', 'Ge', 'Le') and not is_signed(ty_of(x[2]) or 'u32'):
                 # unsigned comparisons with 0 / 1 are zero tests
                 l, r = x[2], x[3]
